@@ -481,20 +481,30 @@ def intersection_emptiness(facts):
         idx = [0]
 
         def visit(n, parents):
-            if n.get("k") == "Assign" and n.get("op") == "=" and txt(n["l"]) == "table_.is_empty_" and strip(n["r"]).get("k") == "Bool" and strip(n["r"])["b"] is True:
-                key = "theta_intersection_base::update:becomes-empty#%d" % idx[0]
-                idx[0] += 1
-                guard = None
-                chain = list(parents) + [n]
-                for i in range(len(chain) - 2, -1, -1):
-                    p = chain[i]
-                    if p.get("k") == "If" and p.get("t") is chain[i + 1]:
-                        guard = txt(p["c"])
-                        break
-                if guard and "table_.theta_" in guard and "==" in guard and "sketch" not in guard:
-                    out.append(ob("theta.intersection-empty", key, n["loc"], "discharged", "is_empty_ = true only if %s" % guard, fn["qname"]))
-                else:
-                    out.append(ob("theta.intersection-empty", key, n["loc"], "violated", "the intersection marks itself empty under `%s`, which is not a test of its own accumulated theta: a result whose theta is already below 1 would be flagged empty (and all later updates ignored), depending on the order of inputs" % guard, fn["qname"]))
+            # every way the flag can become true: `= true` under conditions, `|= c`, `= c`
+            if not (n.get("k") == "Assign" and txt(n["l"]) == "table_.is_empty_"):
+                return
+            from astu import literals
+            r = strip(n["r"])
+            causes = []
+            if n.get("op") == "=" and r.get("k") == "Bool":
+                if r["b"] is not True:
+                    return
+                causes = [l for l in reach(fn["body"], n)]
+            elif n.get("op") in ("|=", "="):
+                causes = list(literals(n["r"]))
+            else:
+                return
+            key = "theta_intersection_base::update:becomes-empty#%d" % idx[0]
+            idx[0] += 1
+            texts = [txt(c) for c in causes]
+            # legitimate causes: the accumulated theta is still 1.0 (nothing was ever sampled out), or the input is an empty sketch
+            own = [t for t in texts if "table_.theta_" in t and "==" in t and "sketch" not in t]
+            inp = [t for t in texts if t.replace(" ", "") in ("sketch.is_empty()",)]
+            if own or inp:
+                out.append(ob("theta.intersection-empty", key, n["loc"], "discharged", "is_empty_ becomes true only if %s" % (own + inp)[0], fn["qname"]))
+            else:
+                out.append(ob("theta.intersection-empty", key, n["loc"], "violated", "the intersection marks itself empty under `%s`, which is neither a test of its own accumulated theta nor the input being empty: a result whose theta is already below 1 would be flagged empty (and all later updates ignored), depending on the order of inputs" % " && ".join(texts), fn["qname"]))
         walkp(fn["body"], visit)
     return out
 
